@@ -1,10 +1,10 @@
 ------------------------------ MODULE MC_Shutdown ------------------------------
 EXTENDS Shutdown
 NoDev == {}
-AllDev == {"UnwrapSharedContext", "JoinBlockedInAccept", "SessionIgnoresFlag", "SignalPanicsDebugThread", "BusyStepBlocksJoin"}
-BusyDev == {"BusyStepBlocksJoin"}
+AllDev == {"UnwrapSharedContext", "JoinBlockedInAccept", "SessionIgnoresFlag", "SignalPanicsDebugThread", "UnboundedJoin"}
+BusyDev == {"UnboundedJoin"}
 RendezvousDev == AllDev \cup {"RendezvousSignal"}
 SelectDev == {"SignalPanicsDebugThread"}
-NoUnwrapDev == {"JoinBlockedInAccept", "SessionIgnoresFlag"}
-LateDev == {"SessionIgnoresFlag"}
+NoUnwrapDev == {"JoinBlockedInAccept", "UnboundedJoin"}
+LateDev == {"SessionIgnoresFlag", "UnboundedJoin"}
 ================================================================================
